@@ -5,14 +5,16 @@ Modelled code (read completely):
 
 * `src/anchor_store.rs` — `thread_local! STATE : RefCell<AnchorState>` with `stack : Vec<(AnchorKind, usize)>`,
   the four pointer stores (`HashMap<usize, Rc/Arc<dyn Any>>`) and `in_progress : HashMap<(AnchorKind, usize), usize>`;
-  `reset`, `with_document_scope` (reset, drop guard that resets again — also on `?` and on unwinding),
-  `with_anchor_context` (push + count, `Guard::drop` = pop + uncount), `current_*_anchor`, `*_reentrant`,
-  `recursive_anchor_in_progress`, `get_*`, `store_*`. All maps are accessed by key only (never iterated),
-  so an association list is a faithful representation.
+  `with_document_scope` (since fix b68ea91: `mem::take`s the state of the enclosing call out of the
+  thread-local, runs the document on a default state, and a drop guard puts the saved state back — also on
+  `?` and on unwinding), `with_anchor_context` (push + count, `Guard::drop` = pop + uncount),
+  `current_*_anchor`, `*_reentrant`, `recursive_anchor_in_progress`, `get_*`, `store_*`. All maps are
+  accessed by key only (never iterated), so an association list is a faithful representation.
 * `src/de_error.rs` — `thread_local! MISSING_FIELD_FALLBACK : Cell<Option<Location>>`,
   `MissingFieldLocationGuard::{new, replace_location, drop}`, `maybe_attach_fallback_location`
   (used by the static constructors `invalid_type`, `invalid_value`, `unknown_variant`, `unknown_field`,
-  `missing_field` of `impl serde::de::Error for Error`).
+  `missing_field` of `impl serde::de::Error for Error`), `FallbackScopeGuard` (since fix 4aaf328: entered by
+  `with_document_scope`; `replace(None)` on entry, the previous value restored on drop).
 * guard sites in `src/de.rs`: `deserialize_map` (`_missing_field_guard`, scoped over the whole visit),
   `SA::next_element_seed` (scoped over one element), `MA::next_key_seed` (`fallback_guard : Option<Guard>`
   created lazily at the first delivered key, `replace_location` at later keys, dropped with the `MA`
@@ -23,7 +25,7 @@ Modelled code (read completely):
   consuming the node); `src/live_events.rs` consults `recursive_anchor_in_progress` for an alias to an anchor
   that is on its own recursion stack.
 * entry points `src/lib.rs`, `src/de/with_deserializer.rs`: every document is deserialized inside
-  `with_document_scope`; NOTHING is done to the fallback cell at entry.
+  `with_document_scope` and the thread-locals are touched nowhere else.
 
 What a deserialization call does to the thread-locals is described by a program `Prog` (a tree of scopes,
 guards, wrapper visitors, probe points, a failure point, nested top-level calls). `exec` interprets it.
@@ -71,7 +73,7 @@ structure Anchors where
   inProgress : List (Key × Nat) := []
 deriving DecidableEq, Repr, Inhabited
 
-/-- `AnchorState::default()` = the state after `reset()` -/
+/-- `AnchorState::default()` -/
 def Anchors.empty : Anchors := {}
 
 /-- `with_anchor_context`: `stack.push((kind, id)); *in_progress.entry((kind, id)).or_insert(0) += 1` -/
@@ -184,6 +186,17 @@ def andThen (r : Out × Slot × St) (post : St → St) (s : Slot)
   | .err l => (.err l, s, st)
   | .panic => (.panic, s, st)
 
+/-- End of `with_document_scope`: for EVERY outcome of the document the two guards put back the anchor state
+and the fallback location that the enclosing call (if any) had on entry (`st`). After `Err` the `read*`
+iterators (`cont`) hand the error out as an item (its half-built value is gone) and go on. -/
+def scopeThen (r : Out × Slot × St) (st : St) (cont : Bool) (s : Slot)
+    (k : Slot → St → Out × Slot × St) : Out × Slot × St :=
+  let st1 := { r.2.2 with anchors := st.anchors, fallback := st.fallback }
+  match r.1 with
+  | .ok => k s st1
+  | .err l => if cont then k s { st1 with ptrs := st.ptrs } else (.err l, s, st1)
+  | .panic => (.panic, s, st1)
+
 /-- `Drop` of the map access: the lazily created guard (if any) restores what it saved — unless leaked -/
 def dropMa (leak : Bool) (s : Slot) (st : St) : St :=
   if leak then st else
@@ -195,15 +208,8 @@ def exec : Prog → Slot → St → Out × Slot × St
   | .done, s, st => (.ok, s, st)
   | .probe k, s, st => exec k s { st with trace := st.trace ++ [.obs st.anchors st.fallback] }
   | .scope cont body k, s, st =>
-    -- reset(); let guard = ResetGuard; f(); drop(guard)
-    let r := exec body none { st with anchors := .empty }
-    let st1 := { r.2.2 with anchors := .empty }
-    match r.1 with
-    | .ok => exec k s st1
-    | .err l =>
-      -- iterator: the error is handed out as an item (its half-built value is gone), the caller goes on
-      if cont then exec k s { st1 with ptrs := st.ptrs } else (.err l, s, st1)
-    | .panic => (.panic, s, st1)
+    -- saved = take(STATE); RestoreGuard(saved); FallbackScopeGuard::enter(); f(); drop(both)
+    scopeThen (exec body none { st with anchors := .empty, fallback := none }) st cont s (exec k)
   | .ctx _ none body k, s, st =>
     andThen (exec body none st) id s (exec k)
   | .ctx kind (some id) body k, s, st =>
@@ -256,7 +262,7 @@ def exec : Prog → Slot → St → Out × Slot × St
   | .err loc, s, st => (.err loc, s, st)
   | .panic, s, st => (.panic, s, st)
   | .nest body k, s, st =>
-    -- the nested call has its own locals; the thread-locals are shared
+    -- the nested call has its own locals; the thread-locals are shared (its document scopes save/restore them)
     let r := exec body none { anchors := st.anchors, fallback := st.fallback }
     let st1 := r.2.2
     exec k s { st with anchors := st1.anchors, fallback := st1.fallback,
@@ -291,8 +297,8 @@ def runHistory : List Prog → Tls → Tls
   | p :: rest, t => runHistory rest (runCall p t).2
 
 /-- Every entry point deserializes each document inside `with_document_scope` and touches the
-thread-locals nowhere else: a top-level call is a non-empty chain of scopes (or, for serialization,
-nothing at all). A failed validation / trailing-content check after the last scope is a final `err`. -/
+thread-locals nowhere else: a top-level call is a chain of scopes (for serialization: nothing at all).
+A failed validation / trailing-content check after the last scope is a final `err`. -/
 def isEntry : Prog → Bool
   | .done => true
   | .err _ => true
@@ -301,11 +307,12 @@ def isEntry : Prog → Bool
 
 /-- Well-nestedness of the fallback guards as the code guarantees it: a key is only delivered by a map
 access (`keyOk`), and a map access that is leaked sits under the container guard of `deserialize_map`
-(whose body is therefore unconstrained). -/
+(whose body is therefore unconstrained; so is the body of a document scope, which restores the cell it
+saved). -/
 def tight : Bool → Prog → Bool
   | _, .done => true
   | ko, .probe k => tight ko k
-  | ko, .scope _ b k => tight false b && tight ko k
+  | ko, .scope _ _ k => tight ko k
   | ko, .ctx _ _ b k => tight false b && tight ko k
   | ko, .strong _ b k => tight false b && tight ko k
   | ko, .weak _ b k => tight false b && tight ko k
@@ -317,24 +324,5 @@ def tight : Bool → Prog → Bool
   | _, .panic => true
   | ko, .nest b k => tight false b && tight ko k
   | ko, .recAlias _ _ k => tight ko k
-
-/-- Every point of the program that reads the fallback cell (`probe`, `serr`) lies under a guard created by
-the program itself; `c` = "the cell currently holds a value written by this program" (the body of a
-guard always starts from a value written by the program, so it is unconstrained). -/
-def covered : Bool → Prog → Bool
-  | _, .done => true
-  | c, .probe k => c && covered c k
-  | c, .scope _ b k => covered c b && covered c k
-  | c, .ctx _ _ b k => covered c b && covered c k
-  | c, .strong _ b k => covered c b && covered c k
-  | c, .weak _ b k => covered c b && covered c k
-  | c, .guard _ _ k => covered c k
-  | c, .ma _ b k => covered c b && covered c k
-  | _, .key _ k => covered true k
-  | c, .serr => c
-  | _, .err _ => true
-  | _, .panic => true
-  | c, .nest b k => covered c b && covered c k
-  | c, .recAlias _ _ k => covered c k
 
 end SaphyrVerif.Tls
